@@ -435,12 +435,11 @@ func joinExcluded(e gen.Expr, sides map[string]int) bool {
 			if e.Op == "==" {
 				l, r := sideOf(e)
 				if l && r && !top {
+					// below anything but a top-level `and` the plain-equality form differs on NULLs by design
 					return true
 				}
-				if l && r {
-					// the plain-equality form is by design; do not compare NULL behaviour
-					return true
-				}
+				// at the top (or under top-level ands) `x == y` and plain `x = y` keep the same pairs:
+				// compared by truth, so the grouping of the operands is still checked
 			}
 			nt := top && e.Op == "and"
 			return rec(e.X, nt) || rec(e.Y, nt)
